@@ -30,6 +30,7 @@ type ReplayFile struct {
 	Case      string         `json:"case"`
 	Trace     []string       `json:"trace"`
 	Crash     string         `json:"crash,omitempty"`
+	Knobs     map[string]int `json:"knobs,omitempty"`
 }
 
 func sameFailure(ref, got *Result) bool {
@@ -45,7 +46,11 @@ func sameFailure(ref, got *Result) bool {
 }
 
 func replayJob(ref *Result, tape map[string]int) *Job {
-	return &Job{ID: 1, Prop: ref.Prop, Profile: ref.Profile, Seed: ref.Seed, Replay: tape, IsRep: true, WantLog: true}
+	j := &Job{ID: 1, Prop: ref.Prop, Profile: ref.Profile, Seed: ref.Seed, Replay: tape, IsRep: true, WantLog: true}
+	if ref.job != nil {
+		j.Knobs = ref.job.Knobs
+	}
+	return j
 }
 
 // confirmAndMinimise re-executes the failing run from its recorded tape in a
@@ -199,7 +204,7 @@ func confirmAndMinimise(bin, vdir, repo, prop string, fail *Result, known []know
 	_ = bestRes
 	rule, disc := violationKey(final)
 	rf := &ReplayFile{Property: prop, Profile: fail.Profile, Seed: fail.Seed, Tree: treeFingerprint(repo), Rule: rule, Disc: disc,
-		Tape: best, TapeLen: final.TapeLen, Minimised: len(best) < orig, OrigTape: orig, Case: final.Desc, Trace: final.Log}
+		Tape: best, TapeLen: final.TapeLen, Knobs: fail.job.Knobs, Minimised: len(best) < orig, OrigTape: orig, Case: final.Desc, Trace: final.Log}
 	if final.Viol != nil {
 		rf.Message = final.Viol.Msg
 	}
@@ -295,7 +300,7 @@ func cmdReplay(args []string) int {
 		fmt.Fprintln(os.Stderr, "BUILD TROUBLE:", err)
 		return 2
 	}
-	job := &Job{ID: 1, Prop: rf.Property, Profile: rf.Profile, Seed: rf.Seed, Replay: rf.Tape, IsRep: true, WantLog: true}
+	job := &Job{ID: 1, Prop: rf.Property, Profile: rf.Profile, Seed: rf.Seed, Replay: rf.Tape, IsRep: true, WantLog: true, Knobs: rf.Knobs}
 	res := RunOne(b.Worker, job, "1")
 	for _, l := range res.Log {
 		fmt.Println(l)
